@@ -116,3 +116,9 @@ class Poly(object):
 class Poly2(Poly):
     """a second, different user-defined ring type (same arithmetic): a process may well use two"""
     __slots__ = ()
+
+
+# Poly2 is also registered in Python's numeric tower (numbers.Real), as user number types often are: the library must
+# still treat it as the user's type and never convert it
+import numbers as _numbers
+_numbers.Real.register(Poly2)
